@@ -409,7 +409,7 @@ def build_message(spec: dict, pol_override=None, with_headers: bool | None = Non
             m[n] = v
     plain, html = spec.get("plain"), spec.get("html")
     inline = [a for a in spec.get("atts", []) if a["disp"] == "inline"]
-    attached = [a for a in spec.get("atts", []) if a["disp"] != "inline"]
+    attached = [a for a in spec.get("atts", []) if a["disp"] != "inline" and not a.get("of_wrapper")]
     body = spec.get("body", {})
     if plain is not None:
         cs, cte = body.get("plain", ["utf-8", "8bit"])
@@ -438,7 +438,60 @@ def build_message(spec: dict, pol_override=None, with_headers: bool | None = Non
                 part["Content-Disposition"] = x["disp"]
             kids = m.get_payload()
             kids.insert(1 if x["pos"] == "after-body" else len(kids), part)
+    if spec.get("container"):
+        _contain(m, spec, pol)
     return m
+
+
+def _contain(m: EmailMessage, spec: dict, pol) -> None:
+    """Put the message's content below another multipart container than mixed / related (attachments are found wherever
+    they sit in the tree):
+      alternative-outer  alternative(text/plain, mixed(html entity, attachments...))   - what Apple Mail sends
+      signed             signed(content entity, application/pkcs7-signature "smime.p7s") - S/MIME, PGP/MIME alike
+      report             report(content entity, text/rfc822-headers)                    - a bounce carrying the original's headers
+      parallel / x-...   <subtype>(content entity)  - RFC 2046: an unknown multipart subtype is read as mixed"""
+    kind = spec["container"]
+
+    def entity(headers_from, payload):
+        e = EmailMessage(policy=pol)
+        for h in ("Content-Type", "Content-Transfer-Encoding", "Content-Disposition", "Content-ID"):
+            if headers_from is not None and headers_from[h] is not None:
+                e[h] = str(headers_from[h])
+        e.set_payload(payload)
+        return e
+
+    def retype(ctype):
+        for h in ("Content-Type", "Content-Transfer-Encoding", "Content-Disposition", "Content-ID"):
+            del m[h]
+        m["Content-Type"] = ctype
+
+    if kind == "alternative-outer":
+        kids = m.get_payload()
+        if m.get_content_type() != "multipart/mixed" or kids[0].get_content_type() != "multipart/alternative":
+            return                                       # (a twin without its attachments: nothing to put below the alternative)
+        alt, atts = kids[0], kids[1:]
+        plain, htmlent = alt.get_payload()
+        inner = EmailMessage(policy=pol)
+        inner["Content-Type"] = "multipart/mixed"
+        inner.set_payload([htmlent] + atts)
+        retype("multipart/alternative")
+        m.set_payload([plain, inner])
+        return
+    content = entity(m, m.get_payload())
+    extra = []
+    for a in spec.get("atts", []):
+        if a.get("of_wrapper"):
+            part = EmailMessage(policy=pol)
+            main, sub = a["ctype"].split("/", 1)
+            part.set_content(a["data"], maintype=main, subtype=sub, cte="base64", disposition="attachment", filename=a["filename"])
+            extra.append(part)
+    if kind == "report":
+        hdrs = EmailMessage(policy=pol)
+        hdrs.set_content("Subject: the original subject\nMessage-ID: <original@example.com>\n", subtype="rfc822-headers", charset="us-ascii", cte="7bit")
+        extra.append(hdrs)
+    retype({"signed": 'multipart/signed; protocol="application/pkcs7-signature"; micalg=sha-256',
+            "report": "multipart/report; report-type=delivery-status"}.get(kind, "multipart/" + kind))
+    m.set_payload([content] + extra)
 
 
 def _flatten(m: EmailMessage, pol) -> bytes:
@@ -862,10 +915,19 @@ def random_spec(rng, tok, fx: dict, *, allow=None, depth: int = 0) -> dict:
     feats.append("struct:" + nest)
     feats.append(f"att:n={natt}")
     feats += sorted({f"att:{a['kind']}:{a['cte']}" for a in atts if a["disp"] != "inline"} | {"att:mismatch:" + a["mismatch"] for a in atts if a.get("mismatch")})
+    # ---- the content below another container than mixed / related (see _contain)
+    spec["container"] = None
+    if depth == 0 and natt and allow.get("containers", True) and rng.random() < 0.2:
+        kinds_c = ["signed", "report", "parallel", "x-verif-unknown"] + (["alternative-outer"] * 3 if shape == "alt" else [])
+        spec["container"] = rng.choice(kinds_c)
+        if spec["container"] == "signed":
+            atts.append({"filename": "smime.p7s", "ctype": "application/pkcs7-signature", "kind": "bin", "disp": "attachment", "cte": "base64", "of_wrapper": True,
+                         "data": bytes(rng.randrange(256) for _ in range(rng.randrange(200, 900)))})
+        feats.append("struct:container:" + spec["container"])
     # ---- further inline text parts next to the body: a list footer / a gateway's disclaimer.  "The body" of such a message is
     # its first text/plain (text/html) part, or all of them in document order - never a later one alone, never another order
     spec["extra_text"] = []
-    if depth == 0 and allow.get("extra_text", True) and rng.random() < 0.12:
+    if depth == 0 and allow.get("extra_text", True) and not spec["container"] and rng.random() < 0.12:
         for sub in rng.choice([["plain"], ["html"], ["plain", "html"], ["html", "plain"], ["plain", "plain"]]):
             cs = rng.choice(["utf-8", "us-ascii", "iso-8859-1"])
             cte = rng.choice(["7bit"] if cs == "us-ascii" else ["8bit", "quoted-printable", "base64"])
@@ -1050,7 +1112,7 @@ def subject_readings(raw: bytes) -> list[str]:
 
 def light(spec: dict) -> dict:
     """The message reduced to its header block (what the header validations and wire readings need)."""
-    return dict(spec, atts=[], wrap_mixed=False, plain=None, html=None)
+    return dict(spec, atts=[], wrap_mixed=False, plain=None, html=None, container=None, extra_text=[])
 
 
 def header_probe(spec: dict) -> bytes:
